@@ -29,8 +29,12 @@ def faithfulKeyring (P : Prims) (sks : List Bytes) : Keyring where
 
 /-- authenticated encryption, as far as the round trip needs it: the opener's
     key does not open the payload-key boxes of the *hidden* recipients that
-    precede it in the header (satisfiable: true of the toy primitives; for NaCl
-    it is the standing assumption on `box`).  Stated on the sender's data. -/
+    precede it in the header.  Not a consequence of `Prims.Lawful`; satisfiable:
+    for the toy primitives it holds exactly when the opener's key differs from
+    those recipients' keys within the first 16 bytes (and fails otherwise — both
+    shown by `example`s in Props/C01.lean); for NaCl it is the standing
+    assumption on `box`.  Stated on the sender's data.  The form for a keyring
+    with several keys is `RingNoSpuriousOpen` (Proofs/RingEnc.lean). -/
 def NoSpuriousOpen (P : Prims) (v : Version) (eph payloadKey : Bytes) (rs : List Recipient) (i : Nat) (sk : Bytes) : Prop :=
   ∀ j, j < i → (rs.getD j default).hidden = true → ∀ n, Nonce.payloadKeyBox v j = .ok n →
     P.unbox sk (P.boxPub eph) n (P.box eph (rs.getD j default).pub n payloadKey) = none
